@@ -295,3 +295,27 @@ def canon_test(node: ast.AST) -> str:
             if op is ast.Eq and k == 0:
                 return f"{ast.unparse(l)} < 1"
     return " ".join(ast.unparse(node).split())
+
+
+def canon_cond(test: ast.AST):
+    """(positive test, flipped?) : strips `not`, turns `x is None` into `x is not None` (flipped), `a != b` stays"""
+    flipped = False
+    while isinstance(test, ast.UnaryOp) and isinstance(test.op, ast.Not):
+        test, flipped = test.operand, not flipped
+    if isinstance(test, ast.Compare) and len(test.ops) == 1 and isinstance(test.ops[0], ast.Is) and isinstance(test.comparators[0], ast.Constant) and test.comparators[0].value is None:
+        test = ast.Compare(left=test.left, ops=[ast.IsNot()], comparators=test.comparators)
+        flipped = not flipped
+    return test, flipped
+
+
+def canon_ifexp(e: ast.IfExp):
+    """(test, value-if-test, value-otherwise) as text, independent of how the condition is negated / which arm comes first"""
+    t, flipped = canon_cond(e.test)
+    a, b = (e.orelse, e.body) if flipped else (e.body, e.orelse)
+    return ast.unparse(t), ast.unparse(a), ast.unparse(b)
+
+
+def canon_if(node: ast.If):
+    """(positive test node, statements when it holds, statements otherwise)"""
+    t, flipped = canon_cond(node.test)
+    return (t, node.orelse, node.body) if flipped else (t, node.body, node.orelse)
